@@ -476,13 +476,13 @@ Qed.
 
 (* ---- repetition_change ---- *)
 Theorem rep_view_spec es rs :
-  Forall2 (fun e t => trpath t = render (ep1 e) /\ trval t = opt_val (et1 e) /\
-                      (trold t, trnew t) = rep_lookup (ep1 e) rs)
-          (filter (fun e => rkind_eqb (ekind e) KRepetition) es) (rep_view es rs).
+  List.length rs = List.length (filter is_rep es) ->
+  Forall2 (fun e t => trpath t = render (ep1 e) /\ trval t = opt_val (et1 e)) (filter is_rep es) (rep_view es rs) /\
+  Forall2 (fun r t => trold t = snd (fst r) /\ trnew t = snd r) rs (rep_view es rs).
 Proof.
-  induction es as [|e es IH]; cbn; [constructor|].
-  destruct (ekind e); cbn; try exact IH. constructor; [|exact IH].
-  cbn. repeat split. destruct (rep_lookup (ep1 e) rs); reflexivity.
+  unfold rep_view. generalize (filter is_rep es) as l. intros l. revert rs.
+  induction l as [|e l IH]; intros [|r rs] L; cbn in L; try discriminate; cbn; [split; constructor|].
+  destruct (IH rs (eq_add_S _ _ L)) as [A B]. split; constructor; try assumption; split; reflexivity.
 Qed.
 
 Lemma rep_name_fresh c : cat_name c <> rep_name.
